@@ -398,6 +398,9 @@ func (ex *Exec) load(st *State, l *Loc) Term {
 			if isPointerLike(l.typ) {
 				sc.axiom(and(app(SBool, ">", c, intLit(0)), app(SBool, "<", c, sc.declare("pre:"+compAlloc, SInt))))
 			}
+			if sc.sortOf(l.typ) == SVal {
+				sc.axiom(not(eq(c, Term{"VNil", SVal}))) // initialised once with a non-nil value
+			}
 			return c
 		}
 	}
